@@ -260,6 +260,18 @@ class Ref:
 # generator of legal histories
 # ----------------------------------------------------------------------------------------------------
 ESIZES = [1, 1, 2, 3, 4, 4, 5, 7, 8, 8, 12, 16, 17, 24] + list(range(1, 25))
+# size classes of the element size: code that treats an element in pieces (chunked copies, word-wise copies, stack buffers,
+# small/large switches) has its case splits at powers of two and their neighbours and at exact multiples of a chunk size
+BIGSIZES = [31, 32, 33, 48, 63, 64, 65, 96, 100, 127, 128, 129, 192, 255, 256, 257, 384, 511, 512, 513, 640, 1000, 1023, 1024, 1025]
+SIZE_CLASSES = list(range(1, 25)) + BIGSIZES + [2048, 4096, 4097, 8192]
+
+
+def pick_esize(r, maxbytes, pbig=0.3):
+    """element size of a new array: 1..24 mostly, with probability pbig one of the larger size classes (at least 2 elements fit)"""
+    big = [e for e in BIGSIZES if 2 * e <= maxbytes]
+    if big and r.random() < pbig:
+        return r.choice(big)
+    return r.choice(ESIZES)
 
 
 class Gen:
@@ -296,6 +308,41 @@ class Gen:
         c = [h for h, x in self.ref.a.items() if pred(h, x)]
         return self.rng.choice(c) if c else None
 
+    def some_perm(self, n):
+        """a permutation of 0..n-1 that is not the identity when n >= 2: random, one long cycle, reversal or a single exchange"""
+        r = self.rng
+        perm = list(range(n))
+        k = r.random()
+        if k < 0.55:
+            r.shuffle(perm)
+        elif k < 0.7:
+            perm = [(i + 1) % n for i in range(n)] if n else []
+        elif k < 0.85:
+            perm.reverse()
+        elif n >= 2:
+            i, j = r.sample(range(n), 2)
+            perm[i], perm[j] = perm[j], perm[i]
+        if n >= 2 and perm == list(range(n)):
+            perm = perm[1:] + perm[:1]
+        return perm
+
+    def fresh_case_array(self, nmin, nmax, sortedkeys=False):
+        """a fresh array whose element size is drawn from the size classes (all of them, as far as nmin elements fit)"""
+        r = self.rng
+        h = self.free_handle()
+        if h is None:
+            return None
+        cand = [e for e in SIZE_CLASSES if nmin * e <= max(self.maxbytes, 64)]
+        e = r.choice(cand if r.random() < 0.7 else [c for c in cand if c >= 25] or cand)
+        n = r.randrange(nmin, max(nmin, min(nmax, max(self.maxbytes, 64) // e)) + 1)
+        if not self.emit(["initc", r.randrange(4), "%x" % h, "%x" % e, "%x" % n, hb(self.rb(n * e))]):
+            return None
+        return h
+
+    def kill(self, h):
+        x = self.ref.a[h]
+        return self.emit(["destroy" if x.dyn else "drop", "%x" % h] + (["%x" % self.rng.randrange(2)] if x.dyn else []))
+
     def total_bytes(self):
         return sum(len(x.b) for x in self.ref.a.values() if x.own)
 
@@ -326,7 +373,7 @@ class Gen:
                 ["set"] * 4 + ["index"] * 2 + ["memset"] + ["view"] * 4 + ["reshape"] * 2 + ["data"] * 2 + ["copy"] * 2 + \
                 ["copyinto"] * 2 + ["move"] * 3 + ["sort"] * 2 + ["uniq"] * 2 + ["issorted"] + ["isequal"] * 2 + ["bsearch"] * 2 + \
                 ["checksum"] + ["isperm"] + ["split"] * 2 + ["permute"] * 2 + ["killview"] * 6 + ["destroy"] * 2 + ["drop"] + \
-                ["viewcycle"] * 4
+                ["viewcycle"] * 4 + ["permcase"] * 2 + ["sortcase"] * 2
         if nlive < 2:
             kinds += ["create"] * 30
         elif nlive < 7:
@@ -337,10 +384,12 @@ class Gen:
             h = self.free_handle()
             if h is None:
                 return False
-            e = r.choice(ESIZES)
+            e = pick_esize(r, self.maxbytes)
             if r.random() < 0.45:
                 return self.emit(["init", r.randrange(2), H(h), H(e)])
             n = r.choice([0, 0, 1, 2, 3, 5, 8, r.randrange(0, 20)])
+            if n * e > self.maxbytes:
+                n = self.maxbytes // e
             return self.emit(["initc", r.randrange(4), H(h), H(e), H(n), hb(self.rb(n * e))])
         if k == "push":
             h = self.pick(own)
@@ -455,7 +504,7 @@ class Gen:
                 return False
             x = ref.a[src]
             tot = x.e * x.n
-            divs = [d for d in range(1, 33) if tot % d == 0] or [1]
+            divs = [d for d in list(range(1, 33)) + BIGSIZES if tot % d == 0] or [1]
             e = r.choice(divs) if tot else r.choice(ESIZES)
             return self.emit(["reshape", H(h), H(src), H(e), H(tot // e)])
         if k == "data":
@@ -465,7 +514,7 @@ class Gen:
                 return False
             x = ref.a[src]
             tot = x.e * x.n
-            e = r.choice(ESIZES)
+            e = pick_esize(r, max(2, tot))
             bo = r.choice([0, r.randrange(0, tot + 1)])
             n = r.choice([(tot - bo) // e, r.randrange(0, (tot - bo) // e + 1)])
             return self.emit(["data", r.randrange(2), H(h), H(src), H(bo), H(e), H(n)])
@@ -557,13 +606,12 @@ class Gen:
             h = self.pick()
             return h is not None and self.emit(["checksum", H(h)])
         if k in ("isperm", "permute"):
-            a = self.pick(lambda h, x: x.n <= 200)
+            a = (self.pick(lambda h, x: 2 <= x.n <= 200) if r.random() < 0.8 else None) or self.pick(lambda h, x: x.n <= 200)
             h = self.free_handle()
             if a is None or h is None:
                 return False
             n = ref.a[a].n
-            perm = list(range(n))
-            r.shuffle(perm)
+            perm = self.some_perm(n)
             if k == "isperm" and n and r.random() < 0.5:
                 perm[r.randrange(n)] = r.choice([n, n + 5, perm[0], 1 << 40])
             ok = self.emit(["initc", r.randrange(4), H(h), "8", H(n), hb(b"".join(struct.pack("<Q", v) for v in perm))])
@@ -573,13 +621,53 @@ class Gen:
             self.emit([r.choice(["reset", "isperm"]), H(h)])
             x = ref.a[h]
             return self.emit(["destroy" if x.dyn else "drop", H(h)] + (["0"] if x.dyn else []))
+        if k == "permcase":
+            # permute (both keepperm values, twice on the same object) of a fresh array of any size class with >= 2 elements
+            a = self.fresh_case_array(2, 7)
+            if a is None:
+                return False
+            ok = False
+            for _ in range(r.choice([1, 1, 2])):
+                p = self.free_handle()
+                if p is None:
+                    break
+                n = ref.a[a].n
+                self.emit(["initc", r.randrange(4), H(p), "8", H(n), hb(b"".join(struct.pack("<Q", v) for v in self.some_perm(n)))])
+                ok |= self.emit(["permute", H(a), H(p), "%x" % r.randrange(2)])
+                self.kill(p)
+            self.kill(a)
+            return ok
+        if k == "sortcase":
+            # sort / is_sorted / bsearch / uniq on a fresh array of any size class (elements that differ late or early)
+            a = self.fresh_case_array(2, 9)
+            if a is None:
+                return False
+            x = ref.a[a]
+            if r.random() < 0.5 and x.n >= 2:      # duplicates and elements that differ only in their last or first byte
+                base = ref.rd(a, 0, x.e)
+                for i in range(1, x.n):
+                    el = bytearray(base)
+                    if r.random() < 0.6:
+                        el[r.choice([0, x.e - 1, r.randrange(x.e)])] = r.randrange(4)
+                    self.emit(["set", H(a), H(i), hb(bytes(el))])
+            self.emit(["issorted", H(a)])
+            ok = self.emit(["sort", H(a)])
+            self.emit(["issorted", H(a)])
+            l = ref.elems(a)
+            self.emit(["bsearch", H(a), hb(r.choice(l) if r.random() < 0.6 else self.rb(x.e))])
+            if x.own:
+                self.emit(["uniq", H(a)])
+            self.kill(a)
+            return ok
         if k == "split":
             h = self.free_handle()
             if h is None:
                 return False
             T = r.choice([0, 1, 2, 3, 4, 7, 8, 16, 33])
             n = 0 if T == 0 else r.choice([0, 1, 2, 3, 5, 9, 17, 40, r.randrange(0, 60)])
-            e = r.choice([1, 2, 3, 8])
+            e = r.choice([1, 2, 3, 8, 8, r.choice(SIZE_CLASSES[:-4])])
+            if n * e > max(self.maxbytes, 64):
+                n = max(self.maxbytes, 64) // e
             present = [t for t in range(T) if r.random() < r.choice([0.3, 0.7, 1.0])] or list(range(T))
             ty = sorted(r.choice(present) for _ in range(n)) if T else []
             data = b"".join(bytes([t]) + self.rb(e - 1) for t in ty)
@@ -662,6 +750,58 @@ def scripted():
     return out
 
 
+def scripted_sizes():
+    """one fixed history per element size class: permute (one long cycle, reversal, single exchange; keepperm 0 and 1; twice on the
+    same object), sort, is_sorted, bsearch, uniq, copy, is_equal, split on arrays of 2, 3 and 5 elements whose elements differ in
+    EVERY byte position (an element that is moved only in part shows)"""
+    out = []
+    H = lambda v: "%x" % v
+    P = lambda perm: hb(b"".join(struct.pack("<Q", v) for v in perm))
+    for e in SIZE_CLASSES:
+        g = Gen(__import__("random").Random(1000 + e), 1 << 20, 0)
+
+        def must(t, g=g):
+            if not g.emit(t):
+                raise RuntimeError("scripted history: illegal step %r" % (t[:3],))
+        for n in ((2, 3, 5) if e <= 1100 else (2, 3)):
+            data = b"".join(bytes([(i * 37 + j * 11 + (j >> 7) * 5 + 1) & 255 for j in range(e)]) for i in range(n))
+            must(["initc", n % 4, "0", H(e), H(n), hb(data)])
+            perms = [[(i + 1) % n for i in range(n)], list(reversed(range(n))), [1, 0] + list(range(2, n))]
+            for pi, perm in enumerate(perms):
+                for keep in (0, 1):
+                    must(["initc", (pi + keep) % 4, "1", "8", H(n), P(perm)])
+                    must(["permute", "0", "1", H(keep)])
+                    if keep and pi == 0:
+                        must(["permute", "0", "1", "0"])      # the kept permutation is used again
+                    g.kill(1)
+            must(["issorted", "0"])
+            must(["sort", "0"])
+            must(["issorted", "0"])
+            l = g.ref.elems(0)
+            must(["bsearch", "0", hb(l[-1])])
+            must(["bsearch", "0", hb(l[0][:-1] + bytes([l[0][-1] ^ 0x40]))])
+            must(["init", 1, "2", H(e)])
+            must(["copy", "2", "0"])
+            must(["isequal", "0", "2"])
+            must(["set", "2", H(n - 1), hb(l[-1][:-1] + bytes([l[-1][-1] ^ 1]))])     # differs in the very last byte
+            must(["isequal", "0", "2"])
+            must(["set", "0", "1", hb(l[0])])                 # a duplicate: uniq removes one element
+            must(["uniq", "0"])
+            must(["copyinto", "2", "0", "0"])
+            g.kill(2)
+            # split: types in the first byte, type-sorted
+            must(["set", "0", "0", hb(bytes([0]) + l[0][1:])])
+            for i in range(1, g.ref.a[0].n):
+                must(["set", "0", H(i), hb(bytes([2]) + l[i][1:])])
+            must(["init", 0, "3", "8"])
+            must(["split", "0", "3", "4"])
+            g.kill(3)
+            g.kill(0)
+        g.teardown()
+        out.append((g.ops, g.exp))
+    return out
+
+
 # ----------------------------------------------------------------------------------------------------
 def case_text(hists):
     lines = []
@@ -686,7 +826,7 @@ def split_outputs(lines, hists):
 
 def run(ctx):
     import genall
-    st = genall.run(["Macros", "Array"])
+    st = genall.run(["Macros", "Array", "ArrayPermC08"])
     for g, s in st.items():
         ctx.log("c2g", g, s)
         if s.startswith("FAILED"):
@@ -707,15 +847,19 @@ def run(ctx):
                 g.emit(t.split())
             hists.append((g.ops, g.exp))
     hists += scripted()
+    nscripted = len(hists)
+    hists += scripted_sizes()
     for _ in range(nh):
         hists.append(gen_history(ctx.rng, ctx.quick))
     text = case_text(hists)
+    ctx.log("generated %d histories (%d scripted), %d bytes of input" % (len(hists), len(hists) - nh, len(text)))
     env = dict(os.environ, ASAN_OPTIONS="detect_leaks=0:abort_on_error=0", UBSAN_OPTIONS="print_stacktrace=1")
     # a call that does not return (endless loop) ends the output early: reported with the history that hangs
     rc, impl, err = ctx.run_lines([exe], text, timeout=(150 if ctx.quick else 1500), env=env)
     if rc == 124:
         err += "\n[the harness did not finish within the time limit: the call after the last complete output line does not return]"
     impl = [l for l in impl if l != ""]
+    ctx.log("harness run done (exit %s)" % rc)
     try:
         mexe = ctx.model("c08")
         rc2, model, err2 = ctx.run_lines([mexe], text, timeout=1500)
@@ -725,6 +869,7 @@ def run(ctx):
     except vlib.BuildError as e:
         ctx.tie_broken("c08 model build (model no longer compiles against the generated definitions)", str(e)[-1500:])
         model = None
+    ctx.log("model run done")
     io = split_outputs(impl, hists)
     mo = split_outputs(model, hists) if model is not None else None
     dist, nviol, ndis, nops = {}, 0, 0, 0
@@ -751,7 +896,8 @@ def run(ctx):
                     ctx.violation(key, "history of %d ops: after op #%d (%s) libsc shows [%s], the reference sequence gives [%s] %s" % (
                         len(upto), li, " ".join(ops[li - 1])[:80] if 0 < li <= len(ops) else "E", what, want[li][:200], detail),
                         dict(ops=[" ".join(t) for t in upto], line=li, impl=got[li], expected=want[li], stderr=detail))
-                ended = got[li] is None
+                # the harness died later in this same history: after a first difference the following calls need not be legal any more
+                ended = any(x is None for x in got)
                 break
         if mo is not None and not ended:
             m = mo[hi]
@@ -774,14 +920,20 @@ def run(ctx):
     ctx.notes["operations_total"] = nops
     ctx.notes["history_lengths"] = dict(min=min(sizes), max=max(sizes), mean=round(sum(sizes) / len(sizes), 1))
     ctx.notes["input_distribution"] = ("4 scripted histories (push one by one over every power of two up to 2200 bytes and pop back, halving resizes; "
-                                       "element sizes 1,3,8,24) + seeded random legal histories: 60% up to 600 bytes, 30% up to 5000, 10% up to 70000 "
-                                       "bytes per array; element sizes 1..24; 55% of the resize/push_count targets sit at 2^k/esz + {-1,0,1,2}; runs of "
+                                       "element sizes 1,3,8,24) + %d scripted histories, one per element size class (%s): arrays of 2, 3, 5 elements that "
+                                       "differ in every byte position, permuted by one long cycle / reversal / one exchange with keepperm 0 and 1 (the kept "
+                                       "permutation used twice), then is_sorted, sort, bsearch (hit / miss in the last byte), copy, is_equal (equal / last byte "
+                                       "differs), uniq with a duplicate, copy_into, split + seeded random legal histories: 60%% up to 600 bytes, 30%% up to 5000, "
+                                       "10%% up to 70000 bytes per array; element sizes 1..24 (70%%) or one of %s (30%%, where two elements fit); permcase / "
+                                       "sortcase steps on a fresh array of any size class with >= 2 elements and a non-identity permutation; "
+                                       "55%% of the resize/push_count targets sit at 2^k/esz + {-1,0,1,2}; runs of "
                                        "pops, rewind/truncate then push; views, views of views, reshape, init_data at byte offsets; overlapping "
-                                       "move_part; byte alphabets 2,3,4,16,256 (duplicates for uniq/bsearch/is_equal); teardown at the end of every history")
+                                       "move_part; byte alphabets 2,3,4,16,256 (duplicates for uniq/bsearch/is_equal); teardown at the end of every history"
+                                       % (len(SIZE_CLASSES), ",".join(str(e) for e in SIZE_CLASSES), ",".join(str(e) for e in BIGSIZES)))
     ctx.notes["model_disagreements"] = ndis
-    for ops, _ in hists[4:9]:
+    for ops, _ in hists[nscripted + len(SIZE_CLASSES):nscripted + len(SIZE_CLASSES) + 5]:
         ctx.sample({"history": " ; ".join(" ".join(t)[:40] for t in ops[:6])})
-    ctx.cov["trusted_base"] = ["tools/c2g translator and clang-14's JSON AST for Gen/Array.v (exercised by the correspondence run: the model computes every decision with the generated functions)",
+    ctx.cov["trusted_base"] = ["tools/c2g translator (+ slicelib conventions for Gen/ArrayPermC08.v: memcpy calls as ghost outputs in source order, newind[x] as a location) and clang-14's JSON AST for Gen/Array.v (exercised by the correspondence run: the model computes every decision with the generated functions)",
                                "libc qsort/bsearch and zlib adler32 are Section variables with their contracts as hypotheses; the run uses memcmp as comparison",
                                "memory effects of sc_malloc/sc_realloc/sc_free as modelled in ArrayModel.v (fresh block, min(old,new) bytes copied, junk tail)"]
     ctx.assumptions += ["histories satisfy the documented preconditions (legal_step): no resize of an owner with live views, no memcpy overlap, indices in range, byte sizes <= 2^62",
